@@ -11,7 +11,7 @@ from mzverif import core
 from mzverif import gen as G
 from mzverif import lib as L
 from mzverif import model as M
-from mzverif.core import Discard, Sub, call, require
+from mzverif.core import Discard, Sub, Violation, call, require
 
 ID = "C05"
 LEVEL = "exploration"
@@ -244,6 +244,69 @@ def check(case: dict):
     return {"nt": bool(nt), "labels": labels}
 
 
+def check_threads(case: dict):
+    """several datasets written to their own files by several threads at the same time (a checkpointing thread next to the main thread,
+    say), then read back: every file holds the dataset that was written to it. The interleaving is sampled, not enumerated."""
+    import sys
+    import threading
+
+    import maze_dataset.dataset.maze_dataset as md
+    from maze_dataset import MazeDataset
+
+    sets = [build_dataset(sub) for sub in case["datasets"]]
+    if any(len(d) == 0 for d in sets):
+        raise Discard()
+    md.set_serialize_minimal_threshold(case.get("threshold", 100))
+    pre = [[len(m.solution) for m in d.mazes] for d in sets]
+    errors: list = []
+    with core.TempDir() as td:
+        paths = [os.path.join(td, f"ds{k}.zanj") for k in range(len(sets))]
+        start = threading.Barrier(len(sets))
+
+        def work(k):
+            try:
+                start.wait()
+                sets[k].save(paths[k])
+            except BaseException as e:  # noqa: BLE001
+                errors.append((k, e))
+
+        old = sys.getswitchinterval()
+        sys.setswitchinterval(1e-6)
+        try:
+            ths = [threading.Thread(target=work, args=(k,)) for k in range(len(sets))]
+            for t in ths:
+                t.start()
+            for t in ths:
+                t.join()
+        finally:
+            sys.setswitchinterval(old)
+            md.set_serialize_minimal_threshold(100)
+        for k, e in errors:
+            if isinstance(e, Exception) and core.raised_in_library(e):
+                raise Violation(f"C05:threads:save-raises:{type(e).__name__}", f"dataset {k}: {str(e)[:200]}")
+            raise e
+        for k, d in enumerate(sets):
+            loaded = call("C05:threads:read", MazeDataset.read, paths[k])
+            _compare("C05:threads", loaded, d, pre[k])
+    return {"nt": len(sets) >= 2, "labels": [f"threads:{len(sets)}"]}
+
+
+@st.composite
+def _threads(draw):
+    k = draw(st.sampled_from([2, 2, 3]))
+    subs_ = []
+    for j in range(k):
+        d = draw(_gen_dataset(5, 24))
+        d["spec"]["n_mazes"] = draw(st.sampled_from([9, 12, 17, 24, 40]))  # stored arrays large enough to become members of their own in the file
+        d["spec"]["grid_n"] = draw(st.sampled_from([4, 5, 6]))
+        d["spec"]["ctor"], d["spec"]["kwargs"] = draw(st.sampled_from(["gen_dfs", "gen_wilson"])), {}
+        d["spec"]["name"] = f"t{j}"
+        d["spec"].pop("endpoint", None)
+        d["spec"].pop("filters", None)
+        subs_.append(d)
+    return {"datasets": subs_, "threshold": draw(st.sampled_from([1, 100]))}
+
+
 def check_collection(case: dict):
     import maze_dataset.dataset.maze_dataset as md
     from maze_dataset import MazeDatasetCollection, MazeDatasetCollectionConfig
@@ -411,5 +474,6 @@ def subs(tier: str):
         Sub("collections", check_collection, "hypothesis", strategy=_collection, examples=30 if q else 1000),
         Sub("grids-beyond-128", check, "hypothesis", strategy=_beyond_128, examples=2 if q else 25),
         Sub("large", check, "hypothesis", strategy=_large, examples=2 if q else 40),
+        Sub("concurrent-threads", check_threads, "hypothesis", strategy=_threads, examples=4 if q else 40, ambient=False),
     ]
     return out
